@@ -49,6 +49,29 @@ class Failure(object):
         return json.dumps(self.witness, sort_keys=True, default=repr)
 
 
+def companion_replayer(ctx, prefixes):
+    """
+    Replay of a deductive counter-model that is over abstract values (uninterpreted strings, stubbed library objects)
+    and so cannot be turned into an input directly: the concrete failing input is the one the bounded layer of THE SAME
+    RUN found for the corresponding runtime contract on the real code, if it found one that no known finding explains.
+    """
+    def fn(f):
+        known = load_known_findings()
+        for g in ctx.failures:
+            if g.source != 'bounded' or not any(g.name.startswith(p) for p in prefixes):
+                continue
+            if match_known(g, known) is not None:
+                continue
+            return {'outcome': 'confirmed',
+                    'note': 'concrete failing input found on the real code by the bounded layer of this run (%s): %s'
+                            % (g.name, (g.detail or '')[:300]),
+                    'concrete_input': g.witness, 'failed_check': g.name}
+        return {'outcome': 'not-reproduced',
+                'note': 'the counter-model is over abstract values; the bounded layer of this run found no concrete '
+                        'failing input for %s' % ', '.join(prefixes)}
+    return fn
+
+
 def match_known(failure, known):
     for k in known.get('findings', []):
         if k['property'] != failure.pid:
